@@ -256,22 +256,23 @@ func TestVerifStress(t *testing.T) {
 					}
 				}(g)
 			}
-			deadline := time.Now().Add(2300 * time.Millisecond)
-			stuck := ""
-			for time.Now().Before(deadline) && stuck == "" {
-				time.Sleep(100 * time.Millisecond)
+			time.Sleep(2300 * time.Millisecond)
+			close(stop2)
+			joined := make(chan struct{})
+			go func() { wg2.Wait(); close(joined) }()
+			select {
+			case <-joined:
+			case <-time.After(20 * time.Second):
+				// a call that is still running 20 s after the phase ended is stuck (e.g. lock order store shard <-> expiry index)
+				stuck := ""
 				for g := 0; g < 8; g++ {
-					if l := last[g].Load(); l != 0 && time.Since(time.Unix(0, l)) > 1500*time.Millisecond {
-						stuck = fmt.Sprintf("goroutine %d has not completed a call for %v during the expiry sweep", g, time.Since(time.Unix(0, l)))
+					if l := last[g].Load(); l != 0 && time.Since(time.Unix(0, l)) > 15*time.Second {
+						stuck += fmt.Sprintf(" goroutine %d: no call completed for %v;", g, time.Since(time.Unix(0, l)).Round(time.Second))
 					}
 				}
+				fmt.Printf("stress hang: round %d (sweep phase): calls issued during the expiry sweep never returned:%s\n", r, stuck)
+				t.Fatalf("hang in sweep phase")
 			}
-			close(stop2)
-			if stuck != "" {
-				fmt.Printf("stress hang: round %d (sweep phase): %s\n", r, stuck)
-				t.Fatalf("hang: %s", stuck)
-			}
-			wg2.Wait()
 			sweepPhase.Store(false) // Close below releases everything through OnEvict
 		}
 		close(stopWatch)
